@@ -15,7 +15,7 @@ import vlib, sesslib
 hx = vlib.hexs
 WRAPS = sesslib.WRAPS + ["psSha256Init", "psSha256Update", "psSha384Init", "psSha384Update", "psMd5Sha1Init", "psMd5Sha1Update", "prf", "prf2",
                          "psHkdfExtract", "psHkdfExpandLabel", "psSign", "psVerify", "psVerifySig", "matrixSslNewClientSession",
-                         "matrixSslNewServerSession", "matrixSslLoadTls13Psk", "matrixSslReceivedData", "matrixSslProcessedData", "matrixSslEncodeToOutdata", "matrixSslGetOutdata"]
+                         "matrixSslNewServerSession", "matrixSslLoadTls13Psk", "tls13ParseExtensions", "matrixSslReceivedData", "matrixSslProcessedData", "matrixSslEncodeToOutdata", "matrixSslGetOutdata"]
 
 # suite -> (cipher, keylen, maclen, prf hash): only used to ORGANISE the runs (which hash context to read, CBC vs AEAD
 # tokens); every value that is compared comes from the extracted spec
@@ -116,6 +116,11 @@ def scenarios(ck, table):
     # a PSK whose length is not the hash length of its suite: MatrixSSL treats it as incompatible -> must be declined cleanly
     add("tls13/1302/extpsk-len32", "cv=4 sv=4 suite=1302 psk=1")
     add("tls13/1301/extpsk-len48", "cv=4 sv=4 suite=1301 psk=1 psklen=48")
+    # PSK-only key establishment: the harness's server selects psk_ke (the client offers both modes), no key_share, (EC)DHE = 0
+    for s_, kl in ((0x1301, ""), (0x1302, " psklen=48"), (0x1303, "")):
+        add("tls13/%04x/extpsk-pskke" % s_, "cv=4 sv=4 suite=%04x psk=1 pskke=1%s" % (s_, kl))
+        add("tls13/%04x/psk-pskke" % s_, "cv=4 sv=4 suite=%04x ticket=1" % s_, "cv=4 sv=4 suite=%04x ticket=1 resume=1 keepkeys=1 pskke=1" % s_)
+    add("tls13/1301/extpsk-pskke-declined", "cv=4 sv=4 suite=1301 psk=1 spsk=0 pskke=1")
     add("tls12/c02f/ticket-declined", "cv=3 sv=3 suite=c02f ticket=1", "cv=3 sv=3 suite=c02f ticket=1 resume=1 keepkeys=1 rotate=1")
     if ck.tier == "thorough":
         for sd in range(2, 7):
@@ -241,8 +246,8 @@ joinm = lambda ms: ",".join(m.hex() for m in ms) if ms else "-"
 class Sess:
     """analysis of one dumped session: the driver line (primary inputs only) and the list of
     (what, library value, key of the spec output) comparisons"""
-    def __init__(self, name, d, prev, thorough=False, script="", apps=()):
-        self.name, self.d, self.prev, self.thorough, self.script, self.apps = name, d, prev, thorough, script, list(apps)
+    def __init__(self, name, d, prev, thorough=False, script="", apps=(), inject=False):
+        self.name, self.d, self.prev, self.thorough, self.script, self.apps, self.inject = name, d, prev, thorough, script, list(apps), inject
         # what each application sent, in order (byte i of a payload = (b0 + i) & 255)
         self.stream = {sd: b"".join(bytes((b0 + i) & 255 for i in range(n)) for (x, n, b0) in self.apps if x == sd) for sd in "cs"}
         self.problems = []       # structural problems found before any spec evaluation (e.g. peers hashed different bytes)
@@ -272,6 +277,54 @@ class Sess:
         return out
     def wire(self, direction=None):
         return [r for r in self.d.recs if direction is None or r[0] == direction]
+
+    def zero_sites(self):
+        """(site, hash length, length passed) of the all-zero inputs of the TLS 1.3 schedule seen in this session"""
+        out = set()
+        if self.ver != 4 or not self.done or self.problems or not hasattr(self, "msgs"): return out
+        hl = 48 if self.hash == "sha384" else 32
+        sh = [m for m in self.msgs if m[0] == 2 and m[6:38] != HRR_RANDOM]
+        dhe = bool(sh) and 51 in (hello_exts(sh[0]) or {})
+        for e in self.d.events("X"):
+            f_ = field(e[3]); L = lambda x: 0 if x == "-" else len(x) // 2
+            if f_ in ("tls13EarlySecret", "tls13EarlySecretSha384"):
+                out.add(("early_salt", hl, L(e[4])))
+                if not e[5].strip("0"): out.add(("dummy_psk", hl, L(e[5])))
+            elif f_ == "tls13HandshakeSecret" and not dhe: out.add(("pskke_ikm", hl, L(e[5])))
+            elif f_ == "tls13MasterSecret": out.add(("master_ikm", hl, L(e[5])))
+        return out
+
+    def plan_inject(self, toks, exp, nextseq):
+        """the extracted spec as an independent PEER: records it seals under its own keys with choices a conforming but
+        different implementation may make - TLS 1.2 GCM explicit nonces that are not the sequence number (random, all ones,
+        a counter from a random start), CBC explicit IVs and non-minimal padding, TLS 1.3 record padding, and a write cut
+        into several records (1, 15, 16, 17 bytes, rest) - to be fed to the receiving MatrixSSL side, which must deliver
+        exactly the bytes"""
+        if not self.inject: return
+        import random
+        r = random.Random(int(hashlib.sha256(self.name.encode()).hexdigest()[:12], 16))
+        self.inj = {}
+        for sender in "cs":
+            payload = bytes(r.randrange(256) for _ in range(97))
+            frags = []; o = 0
+            for c in (1, 15, 16, 17): frags.append(payload[o:o + c]); o += c
+            frags.append(payload[o:])
+            seq = nextseq[sender]; ctr = r.getrandbits(64); idxs = []
+            for j, fr in enumerate(frags):
+                if self.ver == 4:
+                    tok = "S:%s:a:%d:23:%s:%d" % (sender, seq, fr.hex(), (0, 1, 17, 255, 3)[j]); kind = "tls13-padding-fragmentation"
+                elif self.cipher == "gcm":
+                    explicit = (bytes(r.randrange(256) for _ in range(8)) if j == 0 else b"\xff" * 8 if j == 1 else ((ctr + j) % (1 << 64)).to_bytes(8, "big"))
+                    tok = "S:%s:%d:23:%s:%s" % (sender, seq, fr.hex(), explicit.hex()); kind = "gcm-explicit-nonce"
+                elif self.cipher == "cbc":
+                    m = len(fr) + self.maclen; p0 = (-(m + 1)) % 16
+                    padlen = (p0, p0 + 16, p0 + 48, p0 + 16 * ((255 - p0) // 16), p0)[j]
+                    tok = "C:%s:%d:23:%s:%s:%d" % (sender, seq, fr.hex(), bytes(r.randrange(256) for _ in range(16)).hex(), padlen); kind = "cbc-explicit-iv-padding"
+                else:
+                    tok = "S:%s:%d:23:%s:-" % (sender, seq, fr.hex()); kind = "chacha-fragmentation"
+                idxs.append(len(toks)); toks.append(tok); exp.append(("record sealed by the spec as %s's peer (%s)" % ("server" if sender == "c" else "client", kind), "INJECT", sender))
+                seq += 1
+            self.inj[sender] = (payload, idxs, kind)
 
     def label_sites(self):
         """{site: set of label byte strings (hex) the library passed there in this session}; sites are identified by the
@@ -384,6 +437,7 @@ class Sess:
                     toks.append("S:%s:%d:23:%s:%s" % (side, seq, vlib.hexs(content), explicit)); exp.append(("%s application record (sealed by the spec)" % side, a.hex(), None))
             if self.cipher != "cbc" and off != len(self.stream[side]): self.problems.append("%s: application records carry %d bytes, the application sent %d" % (side, off, len(self.stream[side])))
             if not recs[1:] and self.stream[side]: self.problems.append("no application record from %s" % side)
+        self.plan_inject(toks, exp, {"c": len(sealed[0]), "s": len(sealed[1])})
         self.recs_expect = exp
         self.line = "hs12 %d %04x %d %s %s %s %s %s" % (self.ver, self.suite, 1 if ems else 0, secret, cr.hex(), sr.hex(), joinm(msgs), " ".join(toks))
         self.ems = ems
@@ -493,6 +547,7 @@ class Sess:
         if len(fin_idx) != 2: self.problems.append("expected two Finished messages"); return
         flights = {1: msgs[shi + 1:fin_idx[0] + 1], 0: msgs[fin_idx[0] + 1:fin_idx[1] + 1]}
         pad_cfg = "pad=" in self.name or "/pad" in self.name
+        nextseq = {"c": 0, "s": 0}
         for dr, side in ((1, "s"), (0, "c")):
             recs = [bytes.fromhex(b) for (x, inner, ln, b) in self.wire(dr) if b[:2] == "17"]
             inners = [inner for (x, inner, ln, b) in self.wire(dr) if b[:2] == "17"]
@@ -529,8 +584,10 @@ class Sess:
                         content = self.stream[side][off:off + n]; off += n
                         toks.append("S:%s:a:%d:23:%s:0" % (side, seq, vlib.hexs(content))); exp.append(("%s application record (sealed by the spec)" % side, r.hex(), None))
                 seq += 1
+            nextseq[side] = seq
             if not pad_cfg and off != len(self.stream[side]): self.problems.append("%s: application records carry %d bytes, the application sent %d" % (side, off, len(self.stream[side])))
             if napp == 0 and self.stream[side]: self.problems.append("no application record from %s" % side)
+        self.plan_inject(toks, exp, nextseq)
         self.recs_expect = exp
         self.line = "hs13 %04x %s %d %s %d %s %s" % (self.suite, psk or "-", isres, ecdhe, blen, joinm(msgs), " ".join(toks))
         self.psk = psk; self.isres = isres
@@ -650,24 +707,27 @@ def openssl_smoke(ck):
 
 
 CAPTURE_SCEN = ["cv=3 sv=3 suite=c02f", "cv=3 sv=3 suite=c02f ems=-1", "cv=2 sv=2 suite=c013", "cv=4 sv=4 suite=1301 cauth=1 scb=1",
-                "cv=4 sv=4 suite=1302 ticket=1 | cv=4 sv=4 suite=1302 ticket=1 resume=1 keepkeys=1", "cv=4 sv=4 suite=1301 psk=1"]
+                "cv=4 sv=4 suite=1302 ticket=1 | cv=4 sv=4 suite=1302 ticket=1 resume=1 keepkeys=1", "cv=4 sv=4 suite=1301 psk=1", "cv=4 sv=4 suite=1301 psk=1 pskke=1", "cv=4 sv=4 suite=1302 psk=1 psklen=48 pskke=1"]
 def capture_labels(ck, h):
     """{site: [label hex]} observed on a handful of sessions, written to a JSON file for tools/srcgen/gen_tls_labels.py"""
     import json
     scripts = [" ; ".join("new %s seed=%d ; hs ; dump" % (a.strip(), 11 + i) for i, a in enumerate(c.split("|"))) for c in CAPTURE_SCEN]
     rc, outs, err = ck.run_lines(h, scripts, timeout=600)
-    sites = {}
+    sites = {}; zl = {}
     for o in outs:
         prev = None
         for ds in [x for x in o.split(" | ") if x.startswith("dump:")]:
             try:
                 s = Sess("capture", Dump(ds), prev, False, "", ())
                 for k, v in s.label_sites().items(): sites.setdefault(k, set()).update(v)
+                for (zs, hl_, ln_) in s.zero_sites(): zl.setdefault("zlen_" + zs, {}).setdefault(str(hl_), set()).add(ln_)
                 s.spec = {"master": s.d.kv.get("c.ms", "")}; prev = s
             except Exception:
                 pass
     path = os.path.join(ck.scratch, "label-capture.json")
-    json.dump({k: sorted(v) for k, v in sites.items()}, open(path, "w"))
+    cap = {k: sorted(v) for k, v in sites.items()}
+    cap.update({k: {hl_: sorted(x) for hl_, x in v.items()} for k, v in zl.items()})
+    json.dump(cap, open(path, "w"))
     return path
 
 
@@ -677,9 +737,10 @@ def run(ck):
                    "extraction (ExtrOcamlBasic only) + ocaml/drv_c10.ml; harness/h_tlskeys.c + sess.h with link-time wraps (entropy, clock, transcript hashes, prf/prf2, psHkdf*, psSign/psVerify*)",
                    "tools/srcgen/gen_tls_labels.py + consts_tls.c: label strings, sizes and the cipher table of the models are regenerated from the source",
                    "message ENCODINGS are not specified: hello randoms, extension presence (extended_master_secret, pre_shared_key binders length), ServerKeyExchange params and ticket nonce are parsed from the wire by this script / small Gallina accessors"]
+    ck.trusted += ["the peer-injection step re-runs a scenario in a second harness process and relies on the harness being deterministic (entropy / clock pinned); a divergence is reported as a failed obligation, not as a violation"]
     ck.assumptions += ["both peers are MatrixSSL: the premaster / (EC)DHE secret and PSK are taken as inputs (what the two peers agree on), the certificate signatures themselves are C11's subject",
                        "DTLS, TLS 1.0, SSLv3, the TLS <= 1.2 PSK / DHE / static-ECDH key exchanges and 0-RTT application data are not exercised (not in the default build's mutually supported modes, or outside sess.h)",
-                       "TLS 1.3 PSK modes exercised: external and resumption PSK, selected / offered-but-declined (server without it, with another one, with a PSK whose length does not fit its suite, rotated ticket keys), with and without HelloRetryRequest, SHA-256 and SHA-384; psk_ke is compiled in but never selected between two MatrixSSL peers (the server always prefers psk_dhe_ke and there is no option) - the spec covers it (ecdhe = 0), there is no live tie",
+                       "TLS 1.3 PSK modes exercised: external and resumption PSK, selected / offered-but-declined (server without it, with another one, with a PSK whose length does not fit its suite, rotated ticket keys), with and without HelloRetryRequest, SHA-256 and SHA-384; psk_ke (PSK-only, no key_share): MatrixSSL servers always prefer psk_dhe_ke, so the harness's server is made to select psk_ke (it forgets that psk_dhe_ke was offered; nothing on the wire is altered) - both roles then run the psk_ke schedule live; the schedule stages are also called directly in the psk_ke state (ks13)",
                        "note (not a finding): a TLS 1.3 server that receives an EXPIRED ticket aborts with handshake_failure instead of falling back to a full handshake (RFC 8446 4.2.11: SHOULD); 'resumption PSK declined' is therefore exercised through rotated ticket keys"]
     ck.build_repo()
     h = ck.cc("h_tlskeys.c", wraps=WRAPS)
@@ -752,7 +813,7 @@ def process(ck, h, drv, table, scen, pay):
             continue
         for k, ds in enumerate(dumps):
             d = Dump(ds)
-            s = Sess(name + ("#%d" % k if len(dumps) > 1 else ""), d, prev, ck.tier == "thorough", script, applist[k] if k < len(applist) else ())
+            s = Sess(name + ("#%d" % k if len(dumps) > 1 else ""), d, prev, ck.tier == "thorough", script, applist[k] if k < len(applist) else (), k == len(dumps) - 1)
             s.scen = [name, script, applist]
             if not s.done:
                 partial13_check(ck, drv, s, name, script, applist)
@@ -780,11 +841,30 @@ def process(ck, h, drv, table, scen, pay):
     second = []
     for idx, (si, s) in enumerate(sessions):
         if s.prev is not None and s.ver != 4 and (s.line is None or not getattr(s, "full", True)):
-            s2 = Sess(s.name, s.d, s.prev, s.thorough, s.script, s.apps); s2.spec = {}; s2.scen = s.scen
+            s2 = Sess(s.name, s.d, s.prev, s.thorough, s.script, s.apps, s.inject); s2.spec = {}; s2.scen = s.scen
             sessions[idx] = (si, s2)
             if s2.line and not s2.problems: second.append(s2)
     if second: evaluate(second)
     ck.log("extracted spec: %d handshakes recomputed in %.1fs" % (len(first) + len(second), time.time() - t0))
+
+    import json
+    try: gen = json.load(open(os.path.join(vlib.COQ, "Gen/TlsLabels.json")))
+    except Exception: gen = {}
+    # ---- all-zero inputs of the TLS 1.3 schedule: the length each side passed (run time) must be Hash.length
+    zc, zi, zm = [], [], []
+    seenz = {}
+    for si, s in sessions:
+        for (site, hl, ln) in s.zero_sites(): seenz.setdefault((site, hl, ln), s)
+    for (site, hl, ln), s in sorted(seenz.items(), key=lambda x: x[0]):
+        zc.append("length of the all-zero %s with a %d-byte hash (first seen in %s)" % (site, hl, s.name)); zi.append(str(ln)); zm.append(str(hl))
+        tv = gen.get("zlen_" + site)
+        tl = hl if tv == "h" else (tv.get(str(hl), hl) if isinstance(tv, dict) else tv)
+        if tl != ln: ck.obligation("zero-input length table of the models = lengths passed at run time: %s" % site, False, detail="run time %d, table %s" % (ln, tv))
+        if ln != hl:
+            ck.spec_violation("derive:tls13/%04x/%s-length" % (s.suite, site.replace("_", "-")),
+                              "%s: the all-zero %s is passed with %d bytes; RFC 8446 7.1 requires Hash.length = %d zero bytes" % (s.name, site, ln, hl),
+                              {"harness": "h_tlskeys", "script": s.script, "scenario": s.scen, "observed": ln, "expected_by_spec": hl})
+    ck.correspond("lengths of the all-zero inputs of the TLS 1.3 key schedule (run time) vs Hash.length", zc, zi, zm)
 
     # ---- compare: library values by role vs spec; records; signatures
     cases, impl, model = [], [], []
@@ -800,8 +880,8 @@ def process(ck, h, drv, table, scen, pay):
         if "MODEL<>SPEC" in s.raw:      # the theorems say this cannot happen; the library is still compared with the SPEC below
             ck.obligation("extracted model = extracted spec on %s" % s.name, False, detail=s.raw[s.raw.index("MODEL<>SPEC"):][:300])
         sp = s.spec
-        mode = "%s %04x%s%s%s%s" % ({2: "TLS1.1", 3: "TLS1.2", 4: "TLS1.3"}[s.ver], s.suite, "" if getattr(s, "full", True) else " abbreviated",
-                                  (" psk-%s-%s" % ("res" if getattr(s, "isres", 0) else "ext", "selected" if getattr(s, "selected", False) else "declined")) if getattr(s, "psk", None) else "", " hrr" if getattr(s, "hrr", False) else "", " ems" if getattr(s, "ems", False) else "")
+        mode = "%s %04x%s%s%s%s%s" % ({2: "TLS1.1", 3: "TLS1.2", 4: "TLS1.3"}[s.ver], s.suite, "" if getattr(s, "full", True) else " abbreviated",
+                                  (" psk-%s-%s" % ("res" if getattr(s, "isres", 0) else "ext", "selected" if getattr(s, "selected", False) else "declined")) if getattr(s, "psk", None) else "", " hrr" if getattr(s, "hrr", False) else "", " psk_ke" if (s.ver == 4 and s.spec.get("dhe") == "0") else "", " ems" if getattr(s, "ems", False) else "")
         modes[mode] = modes.get(mode, 0) + 1
         for item in s.cmp:
             what, lib, key = item[:3]; sig_override = item[3] if len(item) > 3 else None
@@ -825,6 +905,10 @@ def process(ck, h, drv, table, scen, pay):
                 ok = got.startswith("ok:04") and "/22/" in got
                 if ok: s.spec.setdefault("psks", []).append(got.rsplit("/", 1)[1])
                 shown = "a NewSessionTicket that opens under the spec's server application key"
+            elif expect == "INJECT":
+                ok = re.fullmatch(r"[0-9a-f]+", got) is not None; shown = got
+                s.__dict__.setdefault("inj_recs", {"c": [], "s": []})[aux].append(got if ok else "")
+                if ok: continue
             elif expect in ("APPCBC", "APP13"):
                 ok = got.startswith("ok:") and (expect == "APPCBC" or got.endswith("/23"))
                 if ok:
@@ -875,8 +959,6 @@ def process(ck, h, drv, table, scen, pay):
     #      (a) the table the models are built from (tools/srcgen/gen_tls_labels.py) and (b) the label the RFC gives that role
     import json
     rfc = parse_out(ck.run_lines(drv, ["labels"])[1][0])
-    try: gen = json.load(open(os.path.join(vlib.COQ, "Gen/TlsLabels.json")))
-    except Exception: gen = {}
     seen = {}
     for si, s in sessions:
         for site, labs in s.label_sites().items():
@@ -895,6 +977,60 @@ def process(ck, h, drv, table, scen, pay):
     missing = [k for k in gen if k not in ("hkdf_prefix", "ext_binder") and not any(site == k for (site, _) in seen)]
     if missing and len(sessions) > 20: ck.notes.append("derivation sites of the label table not exercised at run time: " + ", ".join(missing))
     ck.correspond("label bytes passed at each derivation site (run time) vs the RFC label of that role", lc, li, lm)
+    # ---- the extracted spec as an independent PEER on the record layer: the records it sealed (plan_inject) are fed to the
+    #      receiving side of a re-run of the same (deterministic) session; exactly the bytes must come out
+    todo = [s for si, s in sessions if getattr(s, "inj", None) and getattr(s, "inj_recs", None) and not s.problems and s.script.endswith(" ; dump")
+            and all(s.inj_recs[x] and all(s.inj_recs[x]) for x in "cs")]
+    scripts_b = [s.script[:-len(" ; dump")] + " ; inj s %s ; inj c %s ; dump" % ("".join(s.inj_recs["c"]), "".join(s.inj_recs["s"])) for s in todo]
+    t0 = time.time()
+    outs_b = ck.run_lines(h, scripts_b, timeout=3000)[1] if scripts_b else []
+    pc_, pi_, pm_ = [], [], []
+    for s, sb, ob in zip(todo, scripts_b, outs_b + ["NOOUTPUT"] * (len(scripts_b) - len(outs_b))):
+        segs = ob.split(" | ")
+        dumps = [Dump(x) for x in segs if x.startswith("dump:")]
+        if not dumps or dumps[-1].kv.get("c.cr") != s.d.kv.get("c.cr") or dumps[-1].kv.get("c.sr") != s.d.kv.get("c.sr"):
+            ck.obligation("the harness replays %s deterministically (peer injection)" % s.name, False, detail=ob[-200:]); continue
+        mode = "%s/%04x" % ({2: "tls11", 3: "tls12", 4: "tls13"}[s.ver], s.suite)
+        for recv, sender in (("s", "c"), ("c", "s")):
+            payload, idxs, kind = s.inj[sender]
+            m = [re.match(r"inj:%s rc=(-?\d+) alerts=(\d+) err=(-?\d+) got=([0-9a-f-]+)" % recv, x) for x in segs]
+            m = [x for x in m if x]
+            got = m[-1].group(4) if m else "NO-INJ-OUTPUT"; rc_ = m[-1].group(1) if m else "?"; al = m[-1].group(2) if m else "?"
+            pc_.append("%s :: records sealed by the spec (%s) delivered by the %s" % (s.name, kind, "server" if recv == "s" else "client"))
+            pi_.append("rc=%s alerts=%s %s" % (rc_, al, got)); pm_.append("rc=0 alerts=0 %s" % payload.hex())
+            ck.count("peer:" + kind)
+            if pi_[-1] != pm_[-1]:
+                ck.spec_violation("peer:%s/%s" % (mode, kind),
+                                  "%s: records sealed by the RFC transcription acting as the %s (%s: a conforming sender's choices) were not delivered intact by the MatrixSSL %s: rc=%s alerts=%s, got %d of %d bytes" % (
+                                      s.name, "client" if sender == "c" else "server", kind, "server" if recv == "s" else "client", rc_, al, 0 if got in ("-", "NO-INJ-OUTPUT") else len(got) // 2, len(payload)),
+                                  {"harness": "h_tlskeys", "script": sb, "scenario": s.scen, "observed": pi_[-1][:300], "expected_by_spec": pm_[-1][:300], "what": "spec-sealed records (%s)" % kind})
+    ck.log("peer injection: %d sessions re-run in %.1fs" % (len(scripts_b), time.time() - t0))
+    ck.correspond("records sealed by the extracted spec as the peer (GCM explicit nonce != sequence number, CBC IV / padding, TLS 1.3 padding, fragmentation) are delivered exactly", pc_, pi_, pm_)
+
+    # ---- direct calls of the key schedule stages in the psk_ke state (no key_share) vs the spec on the same hashes
+    r = ck.rng("ks13"); kh, kd = [], []
+    for suite, hl in ((0x1301, 32), (0x1302, 48), (0x1303, 32)):
+        for pl in (hl, 32, 48, 20):
+            for role in "cs":
+                for _ in range(ck.budget(1, 4)):
+                    psk = bytes(r.randrange(256) for _ in range(pl)); th = [bytes(r.randrange(256) for _ in range(hl)) for _ in range(3)]
+                    kh.append("ks13 %04x %s %s ke %s %s %s" % (suite, role, psk.hex(), th[0].hex(), th[1].hex(), th[2].hex()))
+                    kd.append("ks13 %04x %s - %s %s %s %s" % (suite, psk.hex(), th[0].hex(), th[0].hex(), th[1].hex(), th[2].hex()))
+    ko = ck.run_lines(h, kh)[1]; km = ck.run_lines(drv, kd)[1]
+    ki, kmm = [], []
+    for a, b, line in zip(ko, km, kh):
+        da, db = parse_out(a.replace("ks13:", "")), parse_out(b)
+        keys = sorted(k for k in da if not k.startswith("rc"))
+        rcs = " ".join("%s=%s" % (k, da[k]) for k in sorted(da) if k.startswith("rc"))
+        ki.append(rcs + " " + " ".join("%s=%s" % (k, da[k]) for k in keys)); kmm.append("rc1=0 rc2=0 rc3=0 rc4=0 rc5=0 " + " ".join("%s=%s" % (k, db.get(k)) for k in keys))
+        if ki[-1] != kmm[-1]:
+            bad = [k for k in keys if da[k] != db.get(k)]
+            ck.spec_violation("derive:tls13/%s/psk-ke-direct:%s" % (line.split()[1], bad[0] if bad else "rc"),
+                              "direct call of the TLS 1.3 key schedule in the psk_ke state (suite %s, %d-byte PSK, %s): %s differ from RFC 8446 7.1 with (EC)DHE = Hash.length zeros" % (
+                                  line.split()[1], len(line.split()[3]) // 2, "server" if line.split()[2] == "s" else "client", bad[:4] or rcs),
+                              {"harness": "h_tlskeys", "script": line, "scenario": ["ks13-direct", line, None], "observed": ki[-1][:400], "expected_by_spec": kmm[-1][:400]})
+    ck.correspond("tls13Derive{HandshakeTrafficSecrets,HandshakeKeys,AppTrafficSecrets,AppKeys,ResumptionMasterSecret} called directly in the psk_ke state vs the spec", kh, ki, kmm)
+
     # ---- primitives and signature digests
     pl = list(prim_lines)
     if ck.tier == "quick" and len(pl) > 900:
